@@ -515,6 +515,7 @@ func sameSet(a, b []string) bool {
 
 func TestReplay(t *testing.T) {
 	outerT = t
+	defer closeEnv()
 	t.Run("TestExhaustive", func(t *testing.T) { vstat.Replay(t, prop, "TestExhaustive", runX) })
 	t.Run("TestRandom", func(t *testing.T) { vstat.Replay(t, prop, "TestRandom", runR) })
 }
